@@ -29,6 +29,10 @@ func genCfg(r *gen.Rand) tcfg {
 		cfg.SkipFailed, cfg.SkipOK = true, true
 	}
 	cfg.RefStore = cfg.VStore && r.Bool()
+	if r.Chance(1, 8) {
+		// neither Max nor MaxFunc configured: the documented default of 5 applies
+		cfg.MaxOmitted, cfg.Max, cfg.Dyn = true, 5, false
+	}
 	return cfg
 }
 
@@ -78,6 +82,9 @@ func genSteps(r *gen.Rand, cfg tcfg) []tstep {
 			if st.Delay < 0 {
 				st.Delay = 0
 			}
+		}
+		if skip && cfg.NKeys > 1 && r.Chance(1, 6) {
+			st.Rekey = (st.Key+r.Range(1, cfg.NKeys-1))%cfg.NKeys + 1 // another key
 		}
 		steps = append(steps, st)
 	}
